@@ -794,8 +794,16 @@ func (c *Ctx) stageInterleave(refs map[refKey]*Ref, keys []refKey) {
 		ic := icase{spec: &Spec{ID: fmt.Sprintf("il/%d", i), Order: OrderPlan{Mode: "canon"}}}
 		var total uint64
 		sharedGroup := ""
+		sameDoc := rng.Intn(4) == 0 // the SAME document (same URLs) rendered by several tasks
+		var first refKey
 		for t := 0; t < nt; t++ {
 			k := small[rng.Intn(len(small))]
+			if sameDoc && t > 0 {
+				k = first
+			}
+			if t == 0 {
+				first = k
+			}
 			// variant shared-css: tasks of one group share the parsed user stylesheets
 			ops := docOps(refs[k].Sc, refs[k].Cfg, "", false)
 			sc := refs[k].Sc
